@@ -173,7 +173,7 @@ def is_pyint(t):
     tag = t[0]
     if tag == 'c':
         return type(t[1]) is int
-    if tag in ('it', 'bv'):
+    if tag in ('it', 'bv', 'cnt'):
         return t[-1] == 'num'
     if tag == 'attr':
         return t[2] in NUM_ATTRS and t[2] not in SEQ_ATTRS and t[2] != 'ival'
@@ -234,7 +234,7 @@ def kind_of(t):
         if tag == '*' and ks and all(k == 'num' for k in ks):
             return 'num'
         return None
-    if tag in ('phi', 'after', 'it', 'bv') and type(t[-1]) is str:
+    if tag in ('phi', 'after', 'it', 'bv', 'cnt') and type(t[-1]) is str:
         return t[-1]
     if tag == 'attr' and t[2] in SEQ_ATTRS:
         return 'seq'
@@ -412,7 +412,11 @@ def canon_iter(it, opts=None):
     """Canonical iteration space: (number of iterations n, k -> value bound to the loop target) with k in range(n);
     enumerate / zip / reversed / direct iteration over an indexable value all become index loops.  None: leave as is."""
     if it[0] == 'range':
-        return None
+        if it[1] == C(0) and it[3] == C(1):
+            return None
+        if not (is_int(it[3]) and it[3][1] != 0):
+            return None
+        return canon_seq(it, opts)       # every range loop runs over k = 0..n-1 with i = a + st*k
     if it[0] == 'call' and it[1] == ('b', 'enumerate') and len(it[2]) in (1, 2) and not it[3]:
         base = canon_seq(it[2][0], opts)
         if base is None:
@@ -485,6 +489,17 @@ def mk_bin(op, a, b, opts=None):
             a = force_num(a, opts)
         if not (op == '%' and kind_of(a) == 'seq'):
             b = force_num(b, opts)
+    if op in ('//', '%') and is_int(b) and type(b[1]) is int and b[1] > 0 and a[0] == '*' and is_pyint(a):
+        cs = [y for y in a[1] if is_int(y) and type(y[1]) is int]
+        if len(cs) == 1 and cs[0][1] % b[1] == 0:
+            if op == '%':
+                return C(0)
+            rest = [y for y in a[1] if y is not cs[0]]
+            q = cs[0][1] // b[1]
+            acc = C(q)
+            for y in rest:
+                acc = mk_bin('*', acc, y, opts)
+            return acc
     if op == '**' and a == C(2) and not is_c(b):
         return mk_bin('<<', C(1), b, opts)
     if is_int(b) and type(b[1]) is int and is_pyint(a) and not (opts is not None and opts.ordered):
@@ -1874,8 +1889,13 @@ class PE:
             return False
         ci = canon_iter(it, self.opts)
         if ci is not None:
-            n, elem = ci
-            self.loop_summary('for', s, ('range', C(0), n, C(1)), env, effects, elem)
+            n, g = ci
+            self.loop_summary('for', s, ('range', C(0), n, C(1)), env, effects, lambda its, cnt: g(its))
+        elif it[0] == 'call' and it[1] == ('b', 'enumerate') and len(it[2]) in (1, 2) and not it[3]:
+            # enumerate over an opaque iterator: the loop over the iterator itself, the index is the iteration counter
+            start = it[2][1] if len(it[2]) == 2 else C(0)
+            self.loop_summary('for', s, it[2][0], env, effects,
+                              lambda its, cnt: ('tuple', ((cnt if start == C(0) else mk_bin('+', cnt, start, self.opts)), its)))
         else:
             self.loop_summary('for', s, it, env, effects)
         return False
@@ -1908,6 +1928,15 @@ class PE:
         def itsym(path=()):
             suf = ('num',) if (kind == 'for' and it[0] == 'range') else ()
             return ('it', L) + path + suf
+
+        def cntsym():
+            """number of completed iterations"""
+            if kind == 'for' and it[0] == 'range':
+                if it[1] == C(0) and it[3] == C(1):
+                    return itsym()
+                if is_int(it[1]) and is_int(it[3]) and it[3][1] != 0:
+                    return mk_bin('//', mk_bin('-', itsym(), it[1], self.opts), it[3], self.opts)
+            return ('cnt', L, 'num')
         for rank, v in enumerate(carried):
             env2[v] = ('phi', L, rank) + ksuf(inits[rank])
         for v in assigned:
@@ -1921,7 +1950,7 @@ class PE:
                 env2[v] = ('hoist', env2[v])
         if kind == 'for':
             if elem is not None:
-                self.bind_target(s.target, elem(itsym()), env2)
+                self.bind_target(s.target, elem(itsym(), cntsym()), env2)
             else:
                 self.bind_pattern_syms(s.target, env2, itsym)
             cond = None
@@ -1933,7 +1962,8 @@ class PE:
         self.exec_block(s.body, env2, body_eff)
         nexts = tuple(env2.get(v, ('unbound', '?')) for v in carried)
         # induction variables: v' = v + k (k loop-invariant constant) over range(a, b, st) -> closed form
-        if kind == 'for' and it[0] == 'range' and is_int(it[1]) and is_int(it[3]) and it[3][1] != 0 and isinstance(s.target, ast.Name):
+        if kind == 'for' and ((it[0] == 'range' and is_int(it[1]) and is_int(it[3]) and it[3][1] != 0) or it[0] != 'range') \
+                and (isinstance(s.target, ast.Name) or elem is not None or it[0] != 'range'):
             ivs = {}
             for rank, v in enumerate(carried):
                 phi = ('phi', L, rank) + ksuf(inits[rank])
@@ -1944,7 +1974,7 @@ class PE:
                     inv = True
                     for r_ in rest:
                         for sub in walk(r_):
-                            if sub[0] in ('phi', 'it', 'after', 'afterlocal') and len(sub) > 1 and sub[1] == L:
+                            if sub[0] in ('phi', 'it', 'cnt', 'after', 'afterlocal') and len(sub) > 1 and sub[1] == L:
                                 inv = False
                                 break
                         if not inv:
@@ -1955,11 +1985,16 @@ class PE:
                         for r_ in rest[1:]:
                             k = mk_bin('+', k, r_, self.opts)
                 if k is not None and kind_of(inits[rank]) != 'seq':
-                    ivs[v] = (rank, k)
+                    ivs[v] = (rank, k, '+')
+                elif nx[0] in ('>>', '<<') and len(nx[1]) == 2 and nx[1][0] == phi and is_int(nx[1][1]) and type(nx[1][1][1]) is int:
+                    ivs[v] = (rank, nx[1][1], nx[0])      # running shift: v >>= c  ->  v0 >> (c * iterations)
             if ivs:
-                a0, st = it[1][1], it[3][1]
-                its = itsym()
-                cnt = its if (a0 == 0 and st == 1) else mk_bin('//', mk_bin('-', its, C(a0), self.opts), C(st), self.opts)
+                cnt = cntsym()
+
+                def closed(rank, k, how, n):
+                    if how == '+':
+                        return mk_bin('+', inits[rank], mk_bin('*', k, n, self.opts), self.opts)
+                    return mk_bin(how, inits[rank], mk_bin('*', k, n, self.opts), self.opts)
                 carried2 = [v for v in carried if v not in ivs]
                 self.nloops, self.ntry = save[0], save[1]
                 del self.sm.funcs[save[2]:]
@@ -1968,8 +2003,8 @@ class PE:
                 inits2 = tuple(env[v] for v in carried2)
                 for rank, v in enumerate(carried2):
                     env2[v] = ('phi', L, rank) + ksuf(inits2[rank])
-                for v, (rank, k) in ivs.items():
-                    env2[v] = mk_bin('+', inits[rank], mk_bin('*', k, cnt, self.opts), self.opts)
+                for v, (rank, k, how) in ivs.items():
+                    env2[v] = closed(rank, k, how, cnt)
                 for v in assigned:
                     if v not in env and v not in tn:
                         env2.pop(v, None)
@@ -1977,7 +2012,7 @@ class PE:
                     if v not in carried2 and v not in ivs and v not in tn and is_alloc(env2[v]):
                         env2[v] = ('hoist', env2[v])
                 if elem is not None:
-                    self.bind_target(s.target, elem(itsym()), env2)
+                    self.bind_target(s.target, elem(itsym(), cntsym()), env2)
                 else:
                     self.bind_pattern_syms(s.target, env2, itsym)
                 body_eff = []
@@ -1988,8 +2023,8 @@ class PE:
                 except NotConcrete:
                     n_it = ('call', ('b', 'len'), (it,), ())
                 old_inits = inits
-                for v, (rank, k) in ivs.items():
-                    env2[v] = mk_bin('+', old_inits[rank], mk_bin('*', k, n_it, self.opts), self.opts)
+                for v, (rank, k, how) in ivs.items():
+                    env2[v] = closed(rank, k, how, n_it)
                 iv_after = {v: env2[v] for v in ivs}
                 carried = carried2
                 inits = tuple(env[v] for v in carried)
@@ -2090,7 +2125,7 @@ class PE:
                 phi = ('phi', L, rank) + ksuf(inits[rank])
                 used = any(mentions(x, lambda y: y == phi) for x in nexts) or mentions(tuple(body_eff), lambda y: y == phi) \
                     or (cond is not None and mentions(cond, lambda y: y == phi))
-                if not used and not mutates(nexts[rank], inits[rank]) and v not in self.roots:
+                if not used and v not in self.roots:
                     dead.append(v)
             if dead:
                 keep = [v for v in carried if v not in dead]
@@ -2283,7 +2318,7 @@ def substitute(t, sub, opts=None):
         if k in memo and memo[k][0] is t:
             return memo[k][1]
         tag = t[0]
-        if tag in ('c', 'sym', 'arg', 'g', 'b', 'p', 'phi', 'it', 'bv', 'lfn', 'undef', 'after', 'unbound', 'sent', 'exc'):
+        if tag in ('c', 'sym', 'arg', 'g', 'b', 'p', 'phi', 'it', 'bv', 'cnt', 'lfn', 'undef', 'after', 'unbound', 'sent', 'exc'):
             out = t
         elif tag == 'hoist':
             out = ('hoist', rec(t[1]))
@@ -2347,6 +2382,8 @@ def _show(t, d=0):
         return 'phi%d.%d' % (t[1], t[2])
     if tag == 'after':
         return 'after%d.%d' % (t[1], t[2])
+    if tag == 'cnt':
+        return 'cnt%d' % t[1]
     if tag == 'it':
         return 'it%d%s' % (t[1], ''.join('.%d' % x for x in t[2:] if type(x) is int))
     if tag == 'bv':
